@@ -512,6 +512,9 @@ func (w *c15Walker) expr(e ast.Expr, exit bool) {
 			w.expr(x.Fun, exit)
 		}
 		callee := w.resolve(recvX, name)
+		if name == "workSheetReader" && len(x.Args) == 1 {
+			c15WsArgs[w.fn.key] = append(c15WsArgs[w.fn.key], src(x.Args[0]))
+		}
 		if sel, ok := recvX.(*ast.SelectorExpr); ok && c15ExprClass(w.fn, sel.X) == "File" {
 			// hand-assigned footprint: a part list kept in a sync.Map of File (check-then-act on it
 			// needs a lock although every single map operation is atomic)
@@ -653,11 +656,17 @@ var c15Stop = map[string]bool{"CalcCellValue": true, "calcCellValue": true, "get
 // one kind (xl/media/imageN.*, xl/drawings/drawingN.xml) form a list whose next free number is
 // computed by scanning it; the functions that scan and extend such a list are named here
 // (sync.Map operations elsewhere are treated as atomic and not tracked).
+// c15WsArgs: function -> source text of the argument of each workSheetReader call in its body
+var c15WsArgs = map[string][]string{}
+
 var c15PartLists = map[string]map[string]string{
 	"countMedia":    {"Pkg": "File.mediaParts"},
 	"addMedia":      {"Pkg": "File.mediaParts"},
 	"countDrawings": {"Pkg": "File.drawingParts", "Drawings": "File.drawingParts"},
 	"drawingLoader": {"Pkg": "File.drawingParts", "Drawings": "File.drawingParts"},
+	// load-or-decode of a worksheet into the cache File.Sheet: two unsynchronised first loads
+	// yield two worksheet objects, one of which is lost (with every update made through it)
+	"workSheetReader": {"Sheet": "File.sheetCache"},
 }
 
 // methods of the iterators returned by the documented Rows / Cols: part of using them
@@ -838,6 +847,26 @@ func init() {
 			}
 			out.WriteString("]\n")
 		}
+		out.WriteString("\n/-! which worksheet a function loads: argument text of every workSheetReader call -/\ndef wsArgs : List (String × List String) := [")
+		firstWs := true
+		for _, k := range followed {
+			if len(c15WsArgs[k]) == 0 {
+				continue
+			}
+			if !firstWs {
+				out.WriteString(",")
+			}
+			firstWs = false
+			fmt.Fprintf(out, "\n  (%s, [", leanStr(k))
+			for i, a := range c15WsArgs[k] {
+				if i > 0 {
+					out.WriteString(", ")
+				}
+				out.WriteString(leanStr(a))
+			}
+			out.WriteString("])")
+		}
+		out.WriteString("]\n")
 		out.WriteString("\ndef skeletons : List (String × List (String × String × String × Bool)) := [")
 		for i, k := range followed {
 			if i > 0 {
